@@ -229,11 +229,20 @@ mod verif_kani {
         let request = any_request(&c, RequestType::Append(logs));
         let commit_before = c.local().log_commit;
         let term_before = c.term;
-        let _ = block_on(c.request(&request));
+        let log_index_before = c.local().log_index;
+        let log_term_before = c.local().log_term;
+        let res = block_on(c.request(&request));
         assert!(inv(&c, granted));
         assert!(c.local().log_commit >= commit_before);
         // C27.term_monotone
         assert!(c.term >= term_before);
+        // C28.stale_leader_refused: entries of a leader of an older term are not accepted (they could
+        // overwrite what the leader of the newer term has replicated and committed)
+        if request.term < term_before {
+            assert!(!matches!(res.result, ResponseType::Ok));
+            assert!(c.local().log_index == log_index_before && c.local().log_term == log_term_before);
+            assert!(c.local().log_commit == commit_before);
+        }
     }
 
     // C27.single_vote + C28 (commit monotone, committed prefix kept): Append requests carrying 0, 1 or 2
